@@ -5,6 +5,7 @@ package blobclient_test
 import (
 	"errors"
 	"fmt"
+	"net"
 	"strings"
 	"testing"
 
@@ -30,8 +31,24 @@ type c25Client struct {
 
 func (c *c25Client) Addr() string { return c.addr }
 
+// c25DeadAddr is the address of a listener that was closed again: dialling it is refused, which the real HTTP
+// client reports as a genuine httputil.NetworkError (the type cannot be constructed outside its package).
+var c25DeadAddr = func() string {
+	l, err := net.Listen("tcp", "127.0.0.1:0")
+	if err != nil {
+		panic(err)
+	}
+	addr := l.Addr().String()
+	l.Close()
+	return addr
+}()
+
 func (c *c25Client) Locations(d core.Digest) ([]string, error) {
 	c.p.contacted = append(c.p.contacted, c.addr)
+	if c.p.netErr[c.addr] {
+		// an unreachable host: the real client against a closed port
+		return blobclient.New(c25DeadAddr).Locations(d)
+	}
 	if c.p.ok[c.addr] {
 		if c.p.replicas != nil {
 			return append([]string(nil), c.p.replicas...), nil
@@ -60,6 +77,7 @@ func (c *c25Client) PrefetchBlob(namespace string, d core.Digest) error       { 
 func (c *c25Client) CheckReadiness() error                                     { return c.note() }
 
 type c25Provider struct {
+	netErr    map[string]bool // hosts that are unreachable (network error) rather than answering with an error status
 	ok        map[string]bool
 	contacted []string
 	replicas  []string        // what a successful Locations call answers (nil: "loc-of-<addr>")
@@ -83,10 +101,12 @@ func c25Exec(t *verifh.T, c verifh.Case) {
 		for _, h := range verifh.Unlist(op[2]) {
 			hosts = append(hosts, h) // host tokens are used verbatim as addresses
 		}
-		p := &c25Provider{ok: map[string]bool{}}
+		p := &c25Provider{ok: map[string]bool{}, netErr: map[string]bool{}}
 		for _, e := range verifh.Unlist(op[3]) {
 			if i := strings.LastIndex(e, "="); i >= 0 && e[i+1:] == "o" {
 				p.ok[e[:i]] = true
+			} else if i >= 0 && e[i+1:] == "n" {
+				p.netErr[e[:i]] = true
 			}
 		}
 		var locs []string
@@ -124,13 +144,15 @@ func c25Exec(t *verifh.T, c verifh.Case) {
 //   bloc one request <method> <hosts> <host=o|e,…> <replicas> <replica=o|e,…> => <ok|err|empty> <lookup hosts> <replicas contacted>
 func c25Request(t *verifh.T, d core.Digest, op []string) {
 	hosts := verifh.Unlist(op[3])
-	p := &c25Provider{ok: map[string]bool{}, replicaOK: map[string]bool{}, replicas: verifh.Unlist(op[5])}
+	p := &c25Provider{ok: map[string]bool{}, netErr: map[string]bool{}, replicaOK: map[string]bool{}, replicas: verifh.Unlist(op[5])}
 	if p.replicas == nil {
 		p.replicas = []string{}
 	}
 	for _, e := range verifh.Unlist(op[4]) {
 		if i := strings.LastIndex(e, "="); i >= 0 && e[i+1:] == "o" {
 			p.ok[e[:i]] = true
+		} else if i >= 0 && e[i+1:] == "n" {
+			p.netErr[e[:i]] = true
 		}
 	}
 	for _, e := range verifh.Unlist(op[6]) {
@@ -191,6 +213,17 @@ func c25RequestCase(method string, k int, okMask uint64, nrep int, repMask uint6
 	return c
 }
 
+// c25Case3: every host's outcome is one of o (answers), e (error status), n (unreachable: network error)
+func c25Case3(kind string, outs string, k int) verifh.Case {
+	var hosts, os []string
+	for i := 0; i < k; i++ {
+		h := fmt.Sprintf("o%02d:80", i)
+		hosts = append(hosts, h)
+		os = append(os, h+"="+string(outs[i%len(outs)]))
+	}
+	return verifh.Case{Ops: [][]string{{"one", kind, verifh.List(hosts), verifh.List(os)}}}
+}
+
 func c25Case(kind string, k int, okMask uint64) verifh.Case {
 	var hosts, outs []string
 	for i := 0; i < k; i++ {
@@ -223,6 +256,30 @@ func TestVerif_C25Locations(t *testing.T) {
 			tr.Count("exhaustive_patterns", 1)
 		}
 	}
+	// genuine network errors: every pattern over {o, e, n} for up to 6 hosts (7 thorough), and all-unreachable /
+	// unreachable-then-good lists of every size up to 40
+	for k := 1; k <= verifh.Scale(6, 7); k++ {
+		n := 1
+		for i := 0; i < k; i++ {
+			n *= 3
+		}
+		for m := 0; m < n; m++ {
+			outs := ""
+			for x, i := m, 0; i < k; i++ {
+				outs += string("one"[x%3])
+				x /= 3
+			}
+			c25Exec(tr, c25Case3("locations", outs, k))
+			tr.Count("exhaustive_patterns_with_network_errors", 1)
+		}
+	}
+	for k := 1; k <= 40; k++ {
+		for _, outs := range []string{"n", "nnnno", "ne", "nnne", "en"} {
+			c25Exec(tr, c25Case3("locations", outs, k))
+			c25Exec(tr, c25Case3("resolve", outs, k))
+			tr.Count("size_sweep_network_errors", 2)
+		}
+	}
 	// all-failing / one-good / all-good for every size 0..40, each several times (map order varies)
 	for k := 0; k <= 40; k++ {
 		for rep := 0; rep < verifh.Scale(3, 20); rep++ {
@@ -252,7 +309,11 @@ func TestVerif_C25Locations(t *testing.T) {
 	}
 	r := verifh.NewRand(verifh.Seed(), "c25bloc")
 	for i := 0; i < verifh.Scale(1000, 50000); i++ {
-		c25Exec(tr, c25RequestCase(methods[r.Intn(len(methods))], r.Intn(41), r.Uint64()&r.Uint64(), 1+r.Intn(5), r.Uint64(), r.Chance(1, 2)))
+		rc := c25RequestCase(methods[r.Intn(len(methods))], r.Intn(41), r.Uint64()&r.Uint64(), 1+r.Intn(5), r.Uint64(), r.Chance(1, 2))
+		if r.Chance(1, 2) { // the cluster hosts that fail are unreachable instead of answering with an error status
+			rc.Ops[0][4] = strings.ReplaceAll(rc.Ops[0][4], "=e", "=n")
+		}
+		c25Exec(tr, rc)
 		tr.Count("request_random", 1)
 	}
 	for i := 0; i < verifh.Scale(3000, 200000); i++ {
